@@ -12,7 +12,7 @@ PROP = {
     },
     "volume": {"quick": 3},
     "technique": "property-based testing: proptest lattice generators + exhaustive/strided f32 bit-pattern sweeps against the Rust primitive per lane, in five builds of the working tree",
-    "level_text": "Generated-input search: every element-wise operation and operator form of the seven float vector types is compared lane by lane with the Rust primitive on special-value-lattice operands (every special in every lane position), plus a sweep of f32 bit patterns (strided in quick, all 2^32 in thorough) through the unary lane ops, in the SSE2, scalar-math, libm, +fma/+avx2 and nightly core-simd builds. Failures shrink to a minimal operand tuple that is saved as a replay file. This is exploration, not proof: exhaustive only where stated in the evidence.",
+    "level_text": "Generated-input search: every element-wise operation and operator form of the seven float vector types is compared lane by lane with the Rust primitive on special-value-lattice operands (every special in every lane position), plus a sweep of f32 bit patterns (strided in quick, all 2^32 in thorough) through the unary lane ops, in the SSE2, scalar-math, libm, +fma/+avx2 and nightly core-simd builds. Failures shrink to a minimal operand tuple that is saved as a replay file. This is exploration, not proof: exhaustive only where stated in the evidence. The lane-wise sub-checks also run against the glam-assert variants of the SSE2, scalar-math and core-simd builds (clamp bounds sorted per lane): a panic there is a failure.",
     "level_note": "Trusted: rustc's f32/f64 primitives (libm's expf/powf in the libm build), proptest, the harness. NEON/wasm32 backends cannot be built here.",
     "design_ref": "DESIGN.md section 5 C01",
     "assumptions": [
